@@ -8,6 +8,7 @@ import (
 	"net/http"
 	"time"
 
+	"github.com/buildbuildio/pebbles/common"
 	"github.com/buildbuildio/pebbles/planner"
 	"github.com/buildbuildio/pebbles/requests"
 	"github.com/gobwas/ws"
@@ -42,6 +43,7 @@ func sendHeartbeat(ctx context.Context, conn net.Conn) error {
 	for {
 		select {
 		case <-timeTicker.C:
+			common.VerifPoint(0, "sub.heartbeat.tick")
 			if err := wsutil.WriteServerText(conn, bMsg); err != nil {
 				return err
 			}
@@ -66,12 +68,14 @@ func (g *Gateway) subscriptionHandler(w http.ResponseWriter, r *http.Request) {
 		return
 	}
 
+	hvid := common.VerifNew("subh")
 	subDict := make(subscriptionDict)
 
 	defer func() {
 		defer func() {
 			recover()
 		}()
+		common.VerifPoint(hvid, "sub.handler.exit")
 		// gracefully close connection
 		body := ws.NewCloseFrameBody(ws.StatusNormalClosure, "")
 		frame := ws.NewCloseFrame(body)
@@ -85,12 +89,14 @@ func (g *Gateway) subscriptionHandler(w http.ResponseWriter, r *http.Request) {
 		// close conn
 		conn.Close()
 
+		common.VerifPoint(hvid, "sub.handler.cleanall")
 		// close all running handlers
 		subDict.CleanAll()
 	}()
 
 	for {
 		msg, err := wsutil.ReadClientText(conn)
+		common.VerifPoint(hvid, "sub.handler.msg", err != nil)
 		if err != nil {
 			return
 		}
